@@ -66,7 +66,7 @@ struct Block {
 	size_t npages = 0;
 	int kind = 0;
 	int state = ST_LIVE;
-	int op_index = -1, req_ord = 0, owner_class = 0;
+	int op_index = -1, req_ord = 0, owner_class = 0, task = 0;
 	const char *op_name = "";
 	bool arena = false;
 	int zone = 0;              // 0: run zone (wiped after every run), 1: model zone (persistent)
@@ -258,7 +258,7 @@ static Block *arena_alloc(size_t size, size_t align, int kind, OpCtx *ctx, bool 
 	arena_protect(lo, npages, PROT_READ | PROT_WRITE);
 	Block b;
 	b.arena = true; b.zone = zone; b.page_lo = lo; b.npages = npages; b.size = size; b.kind = kind; b.state = ST_LIVE; b.reused = reused;
-	b.op_index = ctx->op_index; b.req_ord = ctx->requests; b.op_name = ctx->op_name; b.owner_class = ctx->owner_class;
+	b.op_index = ctx->op_index; b.req_ord = ctx->requests; b.op_name = ctx->op_name; b.owner_class = ctx->owner_class; b.task = ctx->task;
 	b.user = is_mmap ? lo : lo + npages * PG - span;
 	b.prot.assign(npages, PROT_READ | PROT_WRITE);
 	b.hprot.assign(npages, -1);
@@ -287,7 +287,7 @@ static Block *arena_alloc(size_t size, size_t align, int kind, OpCtx *ctx, bool 
 // is legal only over address space the caller had obtained and given back (freed blocks, e.g. a probe mapping); a live
 // block in the range belongs to somebody - replacing it is reported by the caller of this function.
 // Returns nullptr if a live block overlaps (*clobbered names its owner) or the range is not arena space handed out before.
-static Block *arena_alloc_at(uintptr_t addr, size_t len, int kind, OpCtx *ctx, std::string *clobbered) {
+static Block *arena_alloc_at(uintptr_t addr, size_t len, int kind, OpCtx *ctx, std::string *clobbered, Block **own_remap) {
 	size_t npages = (len + PG - 1) / PG;
 	uintptr_t lo = addr, hi = addr + npages * PG;
 	if ((addr & (PG - 1)) || addr < g_arena || hi > g_arena + (g_zone[0].first_page + g_zone[0].bump + 1) * PG) return nullptr;
@@ -297,7 +297,19 @@ static Block *arena_alloc_at(uintptr_t addr, size_t len, int kind, OpCtx *ctx, s
 		if (!b.arena) continue;
 		uintptr_t blo = b.page_lo, bhi = b.page_lo + b.npages * PG;
 		if (bhi <= lo || blo >= hi) continue;
-		if (b.state == ST_LIVE) { if (clobbered) *clobbered = owner_of(b); return nullptr; }
+		if (b.state == ST_LIVE) {
+			// a live mapping of ANOTHER thread in the range: that thread's memory would be replaced under it. A live
+			// mapping the calling thread made itself is its own business (committing pages inside a reservation): the
+			// request is then served as a protection change + zero fill of that part, no new block
+			if (b.task != ctx->task && b.task != 0) { if (clobbered) *clobbered = owner_of(b); return nullptr; }
+			if (lo >= blo && hi <= bhi) {
+				madvise((void *)lo, hi - lo, MADV_DONTNEED);
+				if (own_remap) *own_remap = &b;
+				return nullptr;
+			}
+			if (clobbered) *clobbered = owner_of(b) + " (partly)";
+			return nullptr;
+		}
 		drop.push_back(kv.first);
 	}
 	for (uintptr_t k : drop) {
@@ -310,7 +322,7 @@ static Block *arena_alloc_at(uintptr_t addr, size_t len, int kind, OpCtx *ctx, s
 	arena_protect(lo, npages, PROT_READ | PROT_WRITE);
 	Block b;
 	b.arena = true; b.zone = 0; b.page_lo = lo; b.npages = npages; b.size = len; b.kind = kind; b.state = ST_LIVE; b.reused = true;
-	b.op_index = ctx->op_index; b.req_ord = ctx->requests; b.op_name = ctx->op_name; b.owner_class = ctx->owner_class;
+	b.op_index = ctx->op_index; b.req_ord = ctx->requests; b.op_name = ctx->op_name; b.owner_class = ctx->owner_class; b.task = ctx->task;
 	b.user = lo;
 	b.prot.assign(npages, PROT_READ | PROT_WRITE);
 	b.hprot.assign(npages, -1);
@@ -395,7 +407,7 @@ static void *lib_alloc(OpCtx *ctx, size_t size, size_t align, int kind) {
 			if (in_tiny_zone((uintptr_t)p)) memset((uint8_t *)p + size, 0xA5, tiny_class(size) - size);
 			Block b;
 			b.user = (uintptr_t)p; b.size = size; b.kind = kind; b.state = ST_LIVE; b.align = align < 16 ? 16 : align;
-			b.op_index = ctx->op_index; b.req_ord = ctx->requests; b.op_name = ctx->op_name; b.owner_class = ctx->owner_class;
+			b.op_index = ctx->op_index; b.req_ord = ctx->requests; b.op_name = ctx->op_name; b.owner_class = ctx->owner_class; b.task = ctx->task;
 			g_blocks[(uintptr_t)p] = std::move(b);
 			res = p;
 		}
@@ -838,8 +850,16 @@ extern "C" void *__wrap_mmap(void *addr, size_t len, int prot, int flags, int fd
 	else {
 		Block *b = nullptr;
 		if (kArena && (flags & MAP_FIXED) && addr) {
-			std::string clobbered;
-			b = arena_alloc_at((uintptr_t)addr, len, kind, ctx, &clobbered);
+			std::string clobbered; Block *own = nullptr;
+			b = arena_alloc_at((uintptr_t)addr, len, kind, ctx, &clobbered, &own);
+			if (!b && own) { // fixed mapping inside a live mapping of the same thread: protection change of that part
+				uintptr_t hi2 = ((uintptr_t)addr + len + PG - 1) & ~(PG - 1);
+				arena_protect((uintptr_t)addr, (hi2 - (uintptr_t)addr) / PG, prot);
+				for (uintptr_t x = (uintptr_t)addr; x < hi2; x += PG) own->prot[(x - own->page_lo) / PG] = (uint8_t)prot;
+				if ((prot & PROT_WRITE) && (prot & PROT_EXEC) && (own->owner_class == OWN_CACHE || own->owner_class == OWN_VM_SECURE)) anomaly("WX", std::string("mmap rwx owner=") + owner_of(*own));
+				seam_yield(rt::SITE_MMAP);
+				return addr;
+			}
 			if (!b) {
 				anomaly("MAP_FIXED_CLOBBER", clobbered.empty() ? std::string("mmap(MAP_FIXED) at an address the library did not own") : "mmap(MAP_FIXED) replaces a live mapping owner=" + clobbered);
 				seam_yield(rt::SITE_MMAP);
@@ -855,7 +875,7 @@ extern "C" void *__wrap_mmap(void *addr, size_t len, int prot, int flags, int fd
 			if (p == MAP_FAILED) { fprintf(stderr, "rxsim: real mmap failed\n"); abort(); }
 			Block nb;
 			nb.user = (uintptr_t)p; nb.size = len; nb.kind = kind; nb.npages = (len + PG - 1) / PG;
-			nb.op_index = ctx->op_index; nb.req_ord = ctx->requests; nb.op_name = ctx->op_name; nb.owner_class = ctx->owner_class;
+			nb.op_index = ctx->op_index; nb.req_ord = ctx->requests; nb.op_name = ctx->op_name; nb.owner_class = ctx->owner_class; nb.task = ctx->task;
 			b = &(g_blocks[(uintptr_t)p] = std::move(nb));
 			b->prot.assign(b->npages, 0); b->hprot.assign(b->npages, -1);
 		}
